@@ -490,7 +490,7 @@ func interpretContainerMethod(info *types.Info, fd *ast.FuncDecl, methods map[st
 	}
 	propsAliases = map[types.Object]bool{}
 	defer func() { propsAliases = nil }()
-	pendingTrunc := false                 // a local alias was truncated and not yet stored back
+	pendingTrunc := false               // a local alias was truncated and not yet stored back
 	elemAt := map[types.Object]string{} // locals holding an element of the list -> the slot it sits in now
 	d := &dirtyState{from: map[string]bool{}, points: map[string]bool{}}
 	returnsError := false
